@@ -8,7 +8,7 @@ import itertools
 
 from mc import pool, wire, refms
 
-MECHS = ["DIGEST-MD5", "PLAIN", "LOGIN", "OAUTHBEARER", "X-OTHER"]
+MECHS = ["DIGEST-MD5", "PLAIN", "LOGIN", "OAUTHBEARER", "X-OTHER", "PLAIN-CLIENTTOKEN", "X-LOGIN-TOKEN"]
 IMPLEMENTED = ["DIGEST-MD5", "PLAIN", "LOGIN", "OAUTHBEARER"]
 AUTHMECHS = [None, "DIGEST-MD5", "PLAIN", "LOGIN", "OAUTHBEARER", "X-OTHER", "plain"]
 CREDS = [
